@@ -286,9 +286,8 @@ def run_valid(c: ValidCase, stats: Stats) -> None:
     main = c.unit.main
     mains = [main.filename] + [f.filename for f in c.unit.files if not V.reachable(main, f)]
     lang = c.lang
-    if lang in ("py", "go") and any(not e.members for f in c.unit.files for e in iter_enums(f)):
-        stats.exclude("py/go rendering of a schema with an empty enum (D3/N2: C09/C10)")
-        lang = "c"
+    if any(not e.members for f in c.unit.files for e in iter_enums(f)):
+        stats.count("valid:empty_enum_rendered:" + str(lang))  # (D3/N2, repaired in 43e3cf1: rendered like any other schema)
     check_accepted(texts, mains, stats, lang, c.with_cli)
     for lab in c.labels:
         stats.count("valid:" + lab)
